@@ -853,3 +853,44 @@ func (c *Ctx) flagGuardsSignal(flag, sig FieldRef) bool {
 	}
 	return false
 }
+
+// ruleNothingAfterCloseDecision (C13.13): once the finishing function has claimed the headers and the close frame, the
+// stream's send method emits nothing more.
+func ruleNothingAfterCloseDecision(c *Ctx, rule string) {
+	c.rule(rule, "nothing after the close decision: the finishing function marks the headers as sent and the stream as closed under the write mutex but emits both frames from a goroutine it starts; the server's send method therefore reaches its header emit and the sender only after testing, under that mutex, that the stream is not closed — otherwise a handler that sends after its context ended (client cancel, deadline) skips the headers it believes sent and puts a response message on the wire before the headers frame, or after the close frame")
+	w := c.W
+	a := w.Anchors()
+	lf := w.Locks()
+	if !c.need(rule, "ServerSend", a.ServerSend) || !c.need(rule, "ServerFinish", a.ServerFinish) {
+		return
+	}
+	// the closed flag: the once-guard of the close_stream emit
+	var closed FieldRef
+	found := false
+	for _, e := range c.emitSeq() {
+		if e.Kind != "ServerToClient_CloseStream" || e.Send == nil || !w.ownedBy(e.Fn, a.ServerFinish) {
+			continue
+		}
+		if pt := c.spawnPointOf(e); pt != nil {
+			if fl, ok := c.findOnceFlag(pt, a.SS); ok {
+				closed, found = fl, true
+			}
+		}
+	}
+	if !found {
+		c.fail(rule, "closed flag of the server stream", posOf(w, a.ServerFinish), "cannot infer the flag that guards the close_stream emit")
+		return
+	}
+	n := 0
+	for _, s := range c.senderSendSites() {
+		if s.Parent() != a.ServerSend && !w.ownedBy(s.Parent(), a.ServerSend) {
+			continue
+		}
+		n++
+		in := s.(ssa.Instruction)
+		ld := fieldFlagFact(in, closed, false)
+		okLock := ld != nil && len(perStreamLocks(intersect(lf.MustAt(ld), lf.MustAt(in)), a.SS)) > 0
+		c.check(ld != nil && okLock, rule, w.Short(a.ServerSend)+": hands data to the sender only while the stream is not closed", w.At(in), "under "+closed.String()+" == false, tested in the same critical section", "the send method reaches the sender without having tested "+closed.String()+" (under the write mutex): after the finishing function has claimed the headers and the close frame (client cancel, deadline) a late SendMsg skips the headers and emits a response message before the headers frame, or after close_stream")
+	}
+	c.floor(rule, n, 1, "hand-overs to the sender in the server's send method")
+}
